@@ -268,6 +268,57 @@ FromDict(d) == [k \in Fields |-> IF k \in DOMAIN d THEN d[k] ELSE NoneOf(k)]
 SlurmMentions(r) ==
     {k \in QFields : IsSet(r, k) /\ ~(k = "gpus" /\ r.gpus = 0)} \cup {"extra:" \o x : x \in DOMAIN r.extra}
 
+(* THE OPTION STRING.  to_slurm_options returns blank-separated TOKENS  flag=value, one per set       *)
+(* quantity (in the order of the code: cpus, gpus, nodes, cpus_per_node, memory, time, partition)     *)
+(* followed by one per extra_args entry.  A token is [flag, val]; a value is tokenised by its shape   *)
+(* into ONE uniform record (TLC cannot compare mixed types):                                          *)
+(*     5          [kind |-> "int",  i |-> 5, o |-> <<>>,            s |-> ""]                         *)
+(*     gpu:2      [kind |-> "gpu",  i |-> 2, o |-> <<>>,            s |-> ""]                         *)
+(*     1.5GB      [kind |-> "mem",  i |-> 0, o |-> <<memory token>>, s |-> ""]                        *)
+(*     2:00:00    [kind |-> "time", i |-> 0, o |-> <<time token>>,   s |-> ""]                        *)
+(*     part       [kind |-> "str",  i |-> 0, o |-> <<>>,            s |-> "part"]                     *)
+(* The FLAG NAMES of the quantities are ordinary strings, and extra_args keys are arbitrary strings:  *)
+(* an extra_args key may spell the flag of a quantity (`gres` next to gpus for a second generic       *)
+(* resource, `mem`, `time`, `partition`, `nodes`, `cpus-per-task`, `cpus-per-node`).  Such an entry   *)
+(* is one MORE token; "mentions every quantity that is set" is about the quantity's OWN token         *)
+(* (its flag with its value), which must be there whatever the extra_args are called -- and every     *)
+(* extra_args entry must be there whatever quantities are set.  Neither replaces the other.           *)
+SlurmFlag(k) == CASE k = "cpus"          -> "--cpus-per-task"
+                  [] k = "gpus"          -> "--gres"
+                  [] k = "nodes"         -> "--nodes"
+                  [] k = "cpus_per_node" -> "--cpus-per-node"
+                  [] k = "memory"        -> "--mem"
+                  [] k = "time"          -> "--time"
+                  [] k = "partition"     -> "--partition"
+SlurmFlags    == {SlurmFlag(k) : k \in QFields}
+OptVal(kind, i, o, s) == [kind |-> kind, i |-> i, o |-> o, s |-> s]
+SlurmVal(r, k) == CASE k \in {"cpus", "nodes", "cpus_per_node"} -> OptVal("int", r[k], <<>>, "")
+                    [] k = "gpus"      -> OptVal("gpu", r.gpus, <<>>, "")
+                    [] k = "memory"    -> OptVal("mem", 0, r.memory, "")
+                    [] k = "time"      -> OptVal("time", 0, r.time, "")
+                    [] k = "partition" -> OptVal("str", 0, <<>>, r.partition)
+Tok(flag, val) == [flag |-> flag, val |-> val]
+MentionedQ(r)  == {k \in QFields : IsSet(r, k) /\ ~(k = "gpus" /\ r.gpus = 0)}
+QuantityTok(r, k) == Tok(SlurmFlag(k), SlurmVal(r, k))
+ExtraTok(r, x)    == Tok("--" \o x, OptVal("int", r.extra[x], <<>>, ""))
+RequiredTokens(r) == {QuantityTok(r, k) : k \in MentionedQ(r)} \cup {ExtraTok(r, x) : x \in DOMAIN r.extra}
+
+(* the reference string: quantities in the order of the code, then the extra_args (in any order) *)
+QOrder == <<"cpus", "gpus", "nodes", "cpus_per_node", "memory", "time", "partition">>
+RECURSIVE ExtraToks(_, _)
+ExtraToks(r, K) == IF K = {} THEN <<>>
+                   ELSE LET x == CHOOSE y \in K : TRUE IN <<ExtraTok(r, x)>> \o ExtraToks(r, K \ {x})
+RECURSIVE QuantityToks(_, _)
+QuantityToks(r, i) == IF i > Len(QOrder) THEN <<>>
+                      ELSE (IF QOrder[i] \in MentionedQ(r) THEN <<QuantityTok(r, QOrder[i])>> ELSE <<>>)
+                           \o QuantityToks(r, i + 1)
+SlurmOptions(r) == QuantityToks(r, 1) \o ExtraToks(r, DOMAIN r.extra)
+
+(* Acceptance of an OBSERVED token sequence: every required token occurs in it. *)
+SlurmOK(r, opts) == \A t \in RequiredTokens(r) : \E i \in DOMAIN opts : opts[i] = t
+(* the extra_args keys of r that spell the flag of a quantity r sets (what makes a case interesting) *)
+Colliding(r) == {x \in DOMAIN r.extra : \E k \in MentionedQ(r) : SlurmFlag(k) = "--" \o x}
+
 ---------------------------------------------------------------------------
 (* SIDE-EFFECT FREEDOM as a history property.  `objs` is the sequence of all specifications that   *)
 (* exist (Id = position).  Every combinator appends its result as a new id and leaves every        *)
@@ -279,7 +330,15 @@ Result(objs, o) ==
       [] o.op = "with_defaults" -> WithDefaults(objs[o.a[1]], objs[o.a[2]])
       [] o.op = "roundtrip"     -> FromDict(Dict(objs[o.a[1]]))
 Raises(objs, o) == ~Valid(Result(objs, o))
-Apply(objs, o)  == IF Raises(objs, o) THEN objs ELSE Append(objs, Result(objs, o))
+(* An OBSERVATION reads a specification and creates nothing:                                        *)
+(*   [op |-> "slurm", a |-> <<id>>]   to_slurm_options() of objs[id]; the observed token sequence   *)
+(*   must satisfy SlurmOK for the CURRENT value of that id -- in particular for a specification     *)
+(*   that update / with_defaults / combine_max built out of others (defaults that supply gpus and   *)
+(*   a function that supplies extra_args gres meet only in the result).                             *)
+IsObservation(o) == o.op = "slurm"
+ObservationOK(objs, o, opts) == o.op = "slurm" /\ SlurmOK(objs[o.a[1]], opts)
+Apply(objs, o)  == IF IsObservation(o) THEN objs
+                   ELSE IF Raises(objs, o) THEN objs ELSE Append(objs, Result(objs, o))
 (* Acceptance of an OBSERVED outcome (trace validation): a raise is explained iff the reference     *)
 (* result is not Valid; a returned specification `new` is explained iff it is an allowed result    *)
 (* (ties in combine_max, the don't-cares of with_defaults).                                        *)
